@@ -20,7 +20,12 @@ def run(ctx):
                       "builtin's `starts with a quote -> unquote once` logic assumes; otherwise a value that begins with a "
                       "quoted word is unquoted twice and truncated.  Both patterns are read from the code and evaluated on "
                       "representative names with the program's regex engine")
+    ctx.rule("R17-5", "the alias value replaces the word it was looked up for: expand_alias's position counter advances exactly "
+                      "once per token and recorded positions are applied to the vector as scanned (E-EDITLIST)")
     for crate in ctx.crates:
+        from .. import editlist
+        n_ = editlist.rule(ctx, crate, "R17-5", ["shell::expand_alias"])
+        ctx.floor("R17-5", crate, "alias pass with a token vector", n_, 1)
         name_agreement_rule(ctx, crate)
         b = crate.fn("shell::expand_alias")
         if not ctx.require(b is not None, "R17-1", "R17-1|anchor", "shell::expand_alias not found"):
